@@ -16,7 +16,8 @@ RULE = ("cases = groups of single calls on generated operands. Exact part (real 
         "singular, sparse, affine and small-integer matrices; quaternion matrix()/operator^/conj/inverse/rotation() on random and "
         "unit quaternions; solve/solve_/Matrix::inverse on n x n systems, n = 0..12 (thorough: ..20), 1-3 right-hand sides, random, "
         "sparse, permuted-triangular (zero leading entries, row exchanges needed at every step), singular, and over-determined "
-        "full-rank / rank-deficient systems. Numeric part: float and double instantiations against long double references "
+        "full-rank / rank-deficient systems; axis-angle conversions and rotateE executed exactly with rational stand-ins for "
+        "cos/sin/acos (unit, non-unit and zero axes, unit / non-unit / w=+-1 / w=0 quaternions). Numeric part: float and double instantiations against long double references "
         "(inverse, det, solve, least squares with residual <= c*eps*cond; quaternion <-> matrix <-> axis-angle <-> 24 Euler "
         "conventions on random rotations, a grid, gimbal-lock and 180-degree cases). "
         "non-trivial = distinct case containing an op with at least two different operand tokens")
@@ -30,6 +31,8 @@ ASSUMPTIONS = ["field laws for the scalar type (the theorems are over an arbitra
                "fabs/< of the scalar type select a non-zero pivot whenever one exists (Cmp laws P1,P2 in AslProps/C20.lean; true of "
                "the reals, of IEEE numbers without NaN and of the prime-field order used by the harness)",
                "sqrt returns a square root of the radicand (hypothesis of the rotation() theorems)",
+               "cos/sin/asin/acos/atan2/PI satisfy TrigOK, TrigAA, TrigDouble of lean/AslProofs/{Euler,AxisAngle}.lean (proved for the real "
+               "functions; libm is assumed to approximate them)",
                "libm sin/cos/asin/acos/atan2/sqrt are accurate to a few ulp (numeric clauses only)",
                "Array/Array2 storage (C01) for the dense matrices"]
 
@@ -766,6 +769,13 @@ LEVEL_TEXT = ("Proved in Lean 4 over an arbitrary field, about definitions REGEN
               "triple r, all 12 axis orders, moving and fixed frames, both away from the gimbal-lock threshold (general branch) and "
               "exactly on the lock (degenerate branch); the entries fed to asin/atan2 are exactly sin b, cos b (sin a, cos a), "
               "cos b (sin c, cos c). "
+              "Axis-angle: fromAxisAngle/fromAxisAngleU/fromAxisAngle(v), angle(), axisAngle(), Matrix4::rotate(axis,angle), rotate(Vec3), "
+              "Matrix4::axisAngle() are regenerated too; proved: fromAxisAngleU of a unit axis is a unit quaternion, its matrix is "
+              "Rodrigues' matrix I + sin t [u]x + (1-cos t)[u]x^2, Matrix4::rotate(axis,angle) is that matrix about axis/|axis|, and for "
+              "every unit quaternion q fromAxisAngle(q.axisAngle()) = +-q (angle-0 branch included) so rotate(M.axisAngle()) = M; "
+              "matrix(rotation(M)) = M for every M in the image of matrix() (rotation_matrix_partial). These code paths are also "
+              "executed exactly over the prime field with rational stand-ins for cos/sin/acos and compared with the model and with "
+              "Rodrigues / textbook axis-rotation references. "
               "Proved about the hand-written transcription of solve_/solve/Matrix::inverse (tied to the code by the correspondence "
               "check): for every non-singular n x n system, every number of right-hand sides and EVERY pivot-selection function that "
               "returns a non-zero candidate when one exists, A*solve(A,b) = b; the code's search loop is such a function; the result is "
@@ -777,7 +787,10 @@ LEVEL_TEXT = ("Proved in Lean 4 over an arbitrary field, about definitions REGEN
               "long double references only.")
 LEVEL_NOTE = ("Trusted: Lean kernel; the expression translator tools/props/c20_translate.py; harness/c20.cpp (prime-field scalar class, long "
               "double references). NOT theorems (numeric validation by the correspondence harness only, because Lean's kernel has no IEEE "
-              "floats): all float/double residual bounds; axisAngle()/fromAxisAngle()/rotate(axis,angle) (sqrt/acos; numeric only); "
+              "floats): all float/double residual bounds; "
+              "rotation_matrix_full (matrix(rotation M) = M for EVERY proper rotation matrix M) is only stated: it needs surjectivity of "
+              "q -> matrix q onto SO(3); proved is rotation_matrix_partial (M in the image). The axis-angle and Euler theorems assume "
+              "TrigOK/TrigAA/TrigDouble/CmpStd for cos/sin/asin/acos/atan2/sqrt (proved for the real functions in examples); "
               "the behaviour of eulerAngles() strictly between the lock threshold and the exact lock (there the degenerate branch is an "
               "approximation with error <= sqrt(2(1-lim)); validated numerically with tolerance 8*sqrt(eps), 64*eps for "
               "quaternion<->matrix). The Euler theorems are about exact arithmetic with abstract trigonometric functions, the branch "
